@@ -1,48 +1,69 @@
 """B-wop: written expressions (DESIGN.md 6 C15; C18 for the relocatable operands).
 
-Built on `wcore` (trait `Writer` with the field-log contracts).  Source: write/op.rs, `UnitOffsets` of write/unit.rs.
+Built on `wcore` (trait `Writer` with the field-log contracts).  Source: write/op.rs, `UnitOffsets` of write/unit.rs,
+`write_expression` of write/loc.rs.
 
 The per-opcode contracts are GENERATED from the table WOPS below: write::Operation variant -> the opcode the writer
 must choose (incl. the shorter encodings lit0..31 / reg0..31 / breg0..31 / dup / over, DW_OP_* vs DW_OP_GNU_* by version)
 -> operand fields.  WOPS is written from DWARF 5 section 2.5 / 2.6 / 7.7.1 and is CROSS-CHECKED AT BUILD TIME against the
 READ side's table `op.OPS` (vx/batches/op.py, from which the postconditions of `read::Operation::parse` are generated):
-for every case the opcode must be a row of OPS, the operand KINDS (u1/s2/u4/uleb/sleb/addr/word/v2addr/blk) must be the
-reader's for that opcode, the decoded operation kind must be the one named here, and a block's length operand must be
-the length of the block that follows.  A disagreement raises `TableMismatch` (exit 2): "decodes to the same operation"
-holds by construction of the two tables, and each side is verified against its own table.
+for every case (43) the opcode must be a row of OPS, the operand KINDS (u1/s2/u4/uleb/sleb/addr/word/v2addr/blk) must be
+the reader's for that opcode, the decoded operation kind must be the one named here, every operand must be bound by the
+reader's constraint to the decoded field of the same name (`offset == o1`, `size_in_bits == 8 * o0`, ..), a block's
+length operand must be the length of the block that follows, and the short forms must be `base + n, n < 32` with the
+base the reader subtracts.  A disagreement raises `TableMismatch` (a `Lost`: exit 2).  So "decodes to the same operation"
+holds by construction of the two tables, and each side is verified against its own table.  `op_size`, `op_resolved`,
+`op_sized`, `op_refs_valid` (spec fns) are generated from the same table.
 
 FUNCTIONS UNDER CONTRACT (all owned by C15)
-  write::op::Operation::size       verified (real body; closure `base_size` gets a contract by insertion only)
-  write::op::Operation::write      verified (real body; closure `entry_offset` likewise)
+  write::op::Operation::size       verified (real body; the closure `base_size` gets a contract by insertion only)
+  write::op::Operation::write      verified (real body; closure `entry_offset` likewise); R-SPLIT over 10 verbatim copies
   write::op::Expression::size      verified (sum of operation sizes; mutual recursion with EntryValue: `decreases`)
   write::op::Expression::write     R-EXTBODY: contract ASSUMED (iterator adapters zip/copied, Option::as_deref_mut)
-  write::op::Expression::{op, op_* (35 builders), next_index, set_target}   verified (each pushes the operation it names)
-  write::unit::UnitOffsets::{debug_info_offset, unit_offset}                 verified
-TAGS: see the final report / `python3 vx/run.py wop` clause table.  [C18:expr-address-reloc], [C18:expr-ref-reloc]
-  state that addresses and `.debug_info` references go through the relocatable primitives / fix-ups only.
+  write::op::Expression::{op, op_* (32 builders), op_skip, op_bra, next_index, set_target}   verified
+  write::unit::UnitOffsets::{debug_info_offset, unit_offset}                                   verified
+  write::loc::write_expression     verified (length prefix: 2-byte for DWARF <= 4, ULEB128 for DWARF 5, == bytes emitted)
+TAGS  C15: size-value, size-total, size-sum, ref-error-kind (size fns) | size-eq-len, fields-<opcode> (one per encoding, 52),
+  branch-target-in-bounds (requires), branch-range-err, const-type-len-err, call-offset-err, ref-unresolved-err,
+  ref-needs-fixups-err, fixups-only-for-refs, fixups-frame, frame (Operation::write) | ref-unit-relative (unit_offset) |
+  builder-<name>, builder-keeps-targets, builder-next-index, set-target | length-prefix, length-prefix-too-large.
+  C18: expr-address-reloc (DW_OP_addr operand is a `WOp::Address`), expr-ref-reloc (`.debug_info` references are a
+  relocatable `WOp::Reference` or a zero placeholder + exactly one `DebugInfoFixup{offset of the field, unit, entry, size}`).
 
 ASSUMED
   TRUSTED `write` = Expression::write (see above).  Its contract: Ok ==> every reference resolved, emitted length ==
-     spec_size(), the field log and the fix-up log only grew; requires branch targets in bounds.  (DESIGN 6 C15: Kani
-     group K-EXPRW is planned to check it on the real text with <= 3 operations.)
+     spec_size(), the field log and the fix-up log only grew; requires branch targets in bounds (`targets_ok`).
+     (DESIGN 6 C15: Kani group K-EXPRW is planned to check it on the real text with <= 3 operations.)  Verifying it
+     here was tried: the `zip` loop and `as_deref_mut` can be replaced by an indexed loop and a `match` reborrow, but the
+     loop invariant needs to relate the reborrowed `Option<&mut Vec>` to the parameter's final value, which this Verus
+     version could not express (prophecy of a reference moved into a `mut` local that a loop havocs).
   A-MEM  helper preconditions `section length + encoded size <= isize::MAX` and `offsets[i] <= isize::MAX`: byte counts of
      data that is held in memory (Vec/Box contents), Rust's allocation limit.  Without them the `usize as i64` casts and
      the `+` of sizes are flagged (they cannot overflow on any real machine).
   A-IDS  helper precondition `refs_valid`: entry ids in the expression belong to the unit whose `UnitOffsets` is passed
-     (`UnitOffsets::debug_info_offset` debug_asserts the id space and indexes the table without a check).
+     (`UnitOffsets::debug_info_offset` debug_asserts the id space and indexes the table without a check), and
+     `UnitOffsets::wf` (recorded entry offsets are 0 or >= the unit's offset; `unit_offset` subtracts unchecked).
   The macro `define_id!` is expanded mechanically (R-MACRO); `BaseId` is the debug-assertions variant (R-CFG true).
+  R-VIS: `enum Operation` is made pub(crate) (contract visibility rule of Verus; no body changes); R-ORPAT: the
+  `Skip(ref mut t) | Branch(ref mut t)` arm of `set_target` is duplicated per alternative; R-DERIVE: derive(Debug) only.
 NOT DECIDED
   * that `Expression::write` hands each operation the running sum of sizes as `offsets` (assumed contract, see above);
     hence "every branch lands on the intended operation" is decided per operation (displacement == offsets[target] -
-    end of the branch operation, as a 2-byte signed field, out of range => Err) but not for the expression as a whole.
+    end of the branch operation, as a 2-byte signed field, out of i16 range => Err) but not for the expression as a whole.
   * `Operation::Simple(opcode)` writes the single opcode byte it is given: `Expression::op` documents that it must only
-    be used for operand-less opcodes; this is not checked by gimli and not by this batch.
-  * `Operation::Raw` bytes are written as they are.
+    be used for operand-less opcodes; this is not checked by gimli and not by this batch.  `Operation::Raw` bytes are
+    written as they are.  The Wasm forms are checked against the reader's inline rule (0xed, sub-opcode 0/1/2, uleb).
   * evaluation equivalence of built vs emitted programs (follows from decode equality, C07).
-  * the length-prefix sites (Exprloc arm, loc.rs write_expression, cfi.rs *Expression arms) are not in this batch.
-FINDING CANDIDATE (documented misuse, not a failing clause): `Expression::op_skip/op_bra` push `Skip(!0)`; when
-  `set_target` is never called, `Operation::write` indexes `offsets[usize::MAX]` and panics instead of returning an error
-  (obligation [C15:branch-target-in-bounds]; native reproducer native/src/bin/f_wop_1.rs).
+  * the other length-prefix sites (`AttributeValue::Exprloc` arm of write/unit.rs, the `*Expression` arms of write/cfi.rs)
+    are arms of large functions of C11/C14 and are not in this batch; they have the same shape as `write_expression`.
+  * `Ok` is never guaranteed (the Writer may fail for its own reasons): error clauses are "this condition ==> Err".
+FINDING CANDIDATE F-wop-1 (documented misuse, therefore a precondition and not a failing clause): `Expression::op_skip/op_bra`
+  push `Skip(!0)`/`Branch(!0)`; when `set_target` is never called, `Operation::write` indexes `offsets[usize::MAX]` and
+  PANICS instead of returning an error (obligation [C15:branch-target-in-bounds]; without that precondition Verus reports
+  the index obligation of `offsets[target]`; native reproducer native/src/bin/f_wop_1.rs, through FrameTable and Dwarf::write).
+  In release builds `set_target` accepts any `new_target` (debug_assert only) with the same delayed panic.
+OBSERVATION  `Operation::size` succeeds for `Call`/`ParameterRef` whose entry offset is unknown (fixed 4-byte operand)
+  while `write` fails with UnsupportedExpressionForwardReference: hence two predicates, `op_sized` and `op_resolved`.
 """
 import os
 from lib import *
@@ -53,11 +74,12 @@ from batches.wcore import wsource
 TRUSTED = list(wcore.TRUSTED) + ['write']
 OWN = ['C15']
 VERUS_ARGS = ['--rlimit', '40']
+RETRY_RLIMIT = 120
 # Operation::write: ~70 postconditions x ~100 `?` exits in one VC need rlimit ~340M / 80 s; R-SPLIT over 10 verbatim copies: < 8 s each
 SPLIT_WRITE = int(os.environ.get('WOP_SPLIT', '10'))
 
 
-class TableMismatch(Exception):
+class TableMismatch(Lost):
     """the writer's table and the reader's table (op.OPS) disagree -> exit 2 at build time"""
 
 
@@ -156,6 +178,11 @@ WOPS = [
 # (reader: DW_OP_WASM_location, sub-opcode byte 0/1/2, uleb index - op.py parse_clauses)
 WASM = [('WasmLocal', 0), ('WasmGlobal', 1), ('WasmStack', 2)]
 READER_KIND = {'entry': 'uleb', 'entry4': 'u4', 'uleb0': 'uleb'}
+# writer operand value -> the names the reader's constraint may use for the decoded field that receives this operand
+W2R = {'address': ['address'], 'value': ['value'], 'value@': ['value'], 'offset': ['offset'], 'register.0 as u64': ['register.0'],
+       'index': ['index'], 'size': ['size'], 'branch_disp(offs, target, pos)': ['target'], 'byte_offset': ['byte_offset'],
+       'data@': ['data'], 'size_in_bits': ['size_in_bits'], 'bit_offset': ['bit_offset'], 'size_in_bytes': ['size_in_bits'],
+       'base': ['base_type.0.as_nat()', 'v.as_nat()'], 'entry': ['v.as_nat()']}
 RANGE_BASE = {'lit': ('DW_OP_lit0', 0x30), 'reg': ('DW_OP_reg0', 0x50), 'breg': ('DW_OP_breg0', 0x70)}
 
 
@@ -184,6 +211,18 @@ def cross_check(ctx):
                     lk, lv = c['operands'][j]
                     if norm_ws(lv) not in (norm_ws(v + '.len()'), norm_ws(v + '.len() as u64')):
                         raise TableMismatch(f'{tag}/{name}: operand {j} (`{lv}`) is not the length of block `{v}`')
+            lens = set(int(k[3:]) for k, _ in c['operands'] if k.startswith('blk'))
+            for i, (k, v) in enumerate(c['operands']):
+                if i in lens or k == 'uleb0':
+                    continue      # a block's length operand / the generic type (offset 0): no field of its own
+                forms = []
+                for r in W2R.get(v, []):
+                    if v == 'size_in_bytes':
+                        forms += [f'{r} == 8 * o{i}']      # DW_OP_piece counts bytes, the decoded operation bits
+                    else:
+                        forms += [f'{r} == o{i}', f'{r} == Some(o{i} as u64)', f'window(b0, {r}.rv(), p{i} as nat,']
+                if not any(f in cons for f in forms):
+                    raise TableMismatch(f'{tag}/{name}: operand {i} (`{v}`) is not bound to the same field by the reader: `{cons}`')
             if name in RANGE_BASE:
                 base, val = RANGE_BASE[name]
                 if int(dw[base], 0) != val or f'constants::{base}.0' not in c['opcode'] or not re.search(r'< 32\b', c['cond']):
@@ -316,15 +355,6 @@ def field_clauses():
     return out
 
 
-def refless_pats():
-    """patterns of the variants that never touch the fix-up log"""
-    ps = ['Operation::Raw(_)', 'Operation::Simple(_)']
-    for tag, pat, reads, cases in WOPS:
-        if not any(k in ('word', 'v2addr') for c in cases for k, _ in c['operands']):
-            ps.append(re.sub(r'\b(?<!::)([a-z_]+)\b(?!\s*[:({])', '_', pat) if False else pat)
-    return ps
-
-
 BUILDERS = [
     # (builder, documented opcode(s), pushed operation, WOPS tag)
     ('op_addr', ['DW_OP_addr'], 'Operation::Address(address)', 'Address'),
@@ -422,11 +452,11 @@ use crate::wspec::*;''')
     sk.add('write::unit', wu.item(r'^pub\(crate\) struct UnitOffsets \{', label='UnitOffsets').clean())
     uo = wu.item(r'^impl UnitOffsets \{', label='UnitOffsets(impl)').clean()
     uo.own(OWN)
+    uo.insert_after(' as u64', ' }')       # closes the closure body `|offset| (..) as u64` (first, before any other insertion)
     uo.insert_members(UO_GHOST)
     uo.splice('debug_info_offset', ret='res', requires=['self.has(entry)'], ensures=[
         'res == (if self.entries@[entry.index as int].0 == 0 { None } else { Some(self.entries@[entry.index as int]) })'])
     # DWARF 5 2.5.1.x: entry operands are offsets from the first byte of the unit header
-    uo.insert_after('(offset.0 - self.unit.0) as u64', ' }')
     uo.insert_after('.map(|offset| ', '-> (r: u64) requires offset.0 >= self.unit.0 ensures r == (offset.0 - self.unit.0) as u64 { ')
     uo.insert_after('.map(|offset', ': DebugInfoOffset')
     uo.splice('unit_offset', ret='res', requires=['self.wf()', 'self.has(entry)'],
@@ -517,7 +547,7 @@ use crate::wspec::*;''')
               ensures=[f'[C15:size-value] res matches Ok(n) ==> n as nat == op_size(*self, {E_ARGS})',
                        '[C15:size-total] res is Ok <==> op_sized(*self, unit_offsets)',
                        '[C15:ref-error-kind] res matches Err(e) ==> e == ref_error(unit_offsets)'],
-              decreases='self, 0nat', canary=True)
+              decreases='self, 0nat')   # no canary twin: these requires are a subset of Operation::write's, whose canary fails as it must
     im.splice('write', ret='res',
               requires=[REQ_REFS,
                         f'old(w).wv().len + op_size(*self, {E_ARGS}) <= isize::MAX',
@@ -539,6 +569,28 @@ use crate::wspec::*;''')
                        f'[C15:frame] grew({W0}, {W1})'] + field_clauses(),
               canary=True, split=SPLIT_WRITE)
     sk.add('write::op', im)
+
+    # ---- length-prefix site: write::loc::write_expression (location list entries)
+    # DWARF 2-4 .debug_loc (section 2.6.2 / 7.7.3): "a 2-byte length describing the length of the location description that
+    # follows"; DWARF 5 .debug_loclists (2.6.2, 7.7.3): counted location description = ULEB128 length + that many bytes.
+    wl = Source('write/loc.rs', ctx)
+    sk.module('write::loc', '''use crate::common::Encoding;
+use crate::write::{DebugInfoFixup, Expression, Result, UnitOffsets, Writer};
+use crate::write::op::fix_prefix;
+use crate::wspec::*;''')
+    we = wl.item(r'^fn write_expression<', label='write_expression').clean()
+    we.splice('write_expression', ret='res',
+              requires=['val.refs_valid(unit_offsets)', 'val.targets_ok()',
+                        f'old(w).wv().len + 10 + val.spec_size({E_ARGS}) <= isize::MAX'],
+              ensures=[f'[C15:length-prefix] res is Ok ==> ({{ let n = val.spec_size({E_ARGS}); '
+                       f'let p = if encoding.version <= 4 {{ wu(n, 2) }} else {{ WOp::Uleb(n as u64) }}; '
+                       f'wprefix({W0}.ops.push(p), {W1}.ops) && {W1}.len == {W0}.len + op_len(p, {W0}.len) + n }})',
+                       f'[C15:length-prefix-too-large] encoding.version <= 4 && val.spec_size({E_ARGS}) > 0xffff ==> res is Err',
+                       '[C15:ref-unresolved-err] res is Ok ==> val.resolved(unit_offsets)',
+                       f'[C15:frame] grew({W0}, {W1})',
+                       '[C15:fixups-frame] fix_prefix(old(refs)@, final(refs)@)'],
+              owners=OWN, canary=True)
+    sk.add('write::loc', we)
     return sk
 
 
